@@ -191,6 +191,21 @@ impl RecomputeHeap {
     pub(crate) fn max_height_allowed(&self) -> i32 {
         self.queues.borrow().len() as i32 - 1
     }
+    /// Every queued node with the bucket it sits in, lowest bucket first.
+    #[cfg(cormacrelf_incremental_rs_verif)]
+    pub(crate) fn verif_entries(&self) -> Vec<(i32, NodeRef)> {
+        let mut v = Vec::new();
+        for (h, q) in self.queues.borrow().iter().enumerate() {
+            for n in q.borrow().iter() {
+                v.push((h as i32, n.clone()));
+            }
+        }
+        v
+    }
+    #[cfg(cormacrelf_incremental_rs_verif)]
+    pub(crate) fn verif_height_lower_bound(&self) -> i32 {
+        self.height_lower_bound.get()
+    }
     pub(crate) fn set_max_height_allowed(&self, new_max_height: usize) {
         let mut queues = self.queues.borrow_mut();
         #[cfg(debug_assertions)]
